@@ -505,7 +505,7 @@ void bn_gen_prime_stron(bn_t a, size_t bits) {
 					break;
 				}
 			} while (!bn_is_prime(a));
-		} while (found == 0 && bn_bits(a) != bits);
+		} while (found == 0 || bn_bits(a) != bits);
 	}
 	RLC_CATCH_ANY {
 		RLC_THROW(ERR_CAUGHT);
